@@ -163,6 +163,15 @@ func parseInt64(numberString string) (string, int64, error) {
 	return "%v", num, err
 }
 
+// a yaml number as a float64: integers may be spelled in hex or octal or with underscores
+func parseNumberAsFloat(tag string, numberString string) (float64, error) {
+	if tag == "!!int" {
+		_, parsed, err := parseInt64(numberString)
+		return float64(parsed), err
+	}
+	return strconv.ParseFloat(numberString, 64)
+}
+
 func parseInt(numberString string) (int, error) {
 	_, parsed, err := parseInt64(numberString)
 
